@@ -8,6 +8,7 @@ from __future__ import annotations
 
 import copy
 import json
+import warnings
 
 from ..core import RunResult, Trace, Rng
 from ..refjose import b64, keys as rk, jwe as rjwe
@@ -80,6 +81,8 @@ def run(rng: Rng, tier: str, index: int) -> RunResult:
         for ex in range(n_ex):
             _exchange(rng.sub("x%d" % ex), index, ex, alg, enc, form, res, tr, mode)
         _forbidden(rng.sub("forbidden"), index, alg, enc, res, tr)
+        if form != "compact":
+            _reencrypt(rng.sub("reencrypt"), index, alg, enc, form, res, tr)
     if mode == "edge":
         res.fired("entropy-edge-value", ent.edge_hits)
     res.stats["entropy_draws"] += len(ent.draws)
@@ -251,9 +254,67 @@ def _forbidden(rng, index, alg, enc, res, tr):
                               {"forbidden": "1pu", "alg": a, "enc": bad_enc, "form": form})
 
 
+def _reencrypt(rng, index, alg, enc, form, res, tr):
+    """a message object is encrypted more than once (recipients were added, the plaintext was replaced): every token so
+    produced decrypts to the plaintext of its time, and a token already handed out is not changed by the later call.
+    (Encrypting the object a *decrypted* token was parsed into is not exercised: its computed members sit in the
+    protected header, the repository's own test pins that header, and the result carries the members twice.)"""
+    from joserfc import jwe
+    if not W.enc_ok(alg, enc) or alg in rjwe.DIRECT and False:
+        return
+    key, sender = W.keys_for(rng.sub("key"), alg, enc, rng.pick(W.CURVES))
+    priv = K.to_jose(key, True)
+    pub = priv if key.kty == "oct" else K.to_jose(key.public(), False)
+    skw = {"sender_key": K.to_jose(sender, True)} if sender is not None else {}
+    skw_pub = {"sender_key": K.to_jose(sender.public(), False)} if sender is not None else {}
+    zipped = rng.chance(0.4)
+    pt0 = b"first plaintext " + rng.bytes_(rng.randrange(0, 40))
+    pt1 = b"second, different plaintext " + rng.bytes_(rng.randrange(0, 60))
+    prot = {"enc": enc}
+    if zipped:
+        prot["zip"] = "DEF"
+    repro = {"reencrypt": True, "alg": alg, "enc": enc, "form": form, "zip": zipped, "seed": rng.label}
+    res.case(index, "reencrypt", form)
+    res.fired("message-object-encrypted-again")
+    stage = "first-encryption"
+    try:
+        with warnings.catch_warnings():
+            warnings.simplefilter("ignore")
+            cls = jwe.FlattenedJSONEncryption if form == "flattened" else jwe.GeneralJSONEncryption
+            obj = cls(dict(prot), pt0)
+            obj.add_recipient({"alg": alg}, pub)
+            first = jwe.encrypt_json(obj, None, registry=W.registry(), **skw)
+            snapshot = copy.deepcopy(first)
+            stage = "second-encryption"
+            obj.plaintext = pt1
+            second = jwe.encrypt_json(obj, None, registry=W.registry(), **skw)
+            if first != snapshot:
+                res.violation(ID, "reencrypt:earlier-token-altered", "the token returned by the first encrypt_json() was changed by the second call on the "
+                              "same object: members %r" % sorted(k for k in snapshot if first.get(k) != snapshot[k]), dict(repro, stage=stage))
+            stage = "decrypt-second"
+            back = jwe.decrypt_json(copy.deepcopy(second), priv, registry=W.registry(), **skw_pub)
+            if back.plaintext != pt1:
+                res.violation(ID, "reencrypt:stale-plaintext", "after obj.plaintext was replaced the new token decrypts to %r..., not the new plaintext" % (
+                    bytes(back.plaintext or b"")[:24],), dict(repro, stage=stage))
+            stage = "decrypt-first"
+            back = jwe.decrypt_json(copy.deepcopy(snapshot), priv, registry=W.registry(), **skw_pub)
+            if back.plaintext != pt0:
+                res.violation(ID, "reencrypt:first-plaintext-differs", "the first token decrypts to other octets", dict(repro, stage=stage))
+            tr.add("reencrypt", index, form, "ok")
+    except Exception as e:
+        tr.add("reencrypt", index, form, type(e).__name__)
+        res.violation(ID, "reencrypt:%s:failed:%s" % (stage, type(e).__name__), "%s: %s: %s" % (stage, type(e).__name__, str(e)[:120]), dict(repro))
+
+
 def replay(repro: dict):
     W.ensure_drafts_registered()
     out = []
+    if repro.get("reencrypt"):
+        res = RunResult()
+        rng = Rng(repro["seed"])
+        # same key and plaintexts as in the run (the rng label pins them)
+        _reencrypt(rng, 0, repro["alg"], repro["enc"], repro["form"], res, Trace())
+        return [(v["sig"], v["what"]) for v in res.violations]
     if "forbidden" in repro:
         class R(RunResult):
             pass
